@@ -644,7 +644,7 @@ func bsAfterNext(b *bitstream) bool {
 	case bitcodeNone:
 		return false
 	}
-	return b.state == bssOnValue && b.code <= bitcodeAnnotation
+	return b.state == bssOnValue && b.code <= bitcodeAnnotation && ((b.code != bitcodeBVM && b.code != bitcodeAnnotation) || !b.null)
 }
 
 // bsOn: the stream is positioned on a non-null value of the given kind.
